@@ -309,6 +309,19 @@ func genMutations(w *bufio.Writer, r *hx.Rng, tier string) {
 			n++
 		}
 		fmt.Fprintf(w, "PE mutate %s %d%s\n", hx.Hex(signed), n, sb.String())
+		// semantic mutations: content appended after the signature container, with the (unsigned) size field enlarged or not
+		pay := r.Bytes(r.Pick(8, 16, 24, 40))
+		zeros8 := make([]byte, 8)
+		entry := append([]byte{16, 0, 0, 0, 0, 2, 2, 0}, r.Bytes(8)...) // a second, syntactically valid WIN_CERTIFICATE entry
+		for _, ap := range []struct {
+			extra []byte
+			grow  int
+		}{
+			{pay, 0}, {pay, len(pay)}, {zeros8, 8}, {append(append([]byte{}, zeros8...), pay...), 8 + len(pay)},
+			{append(append([]byte{}, zeros8...), pay...), 8}, {entry, 16}, {[]byte{0, 0, 0, 0}, 4}, {pay[:7], 7},
+		} {
+			fmt.Fprintf(w, "PE append %s %s %d\n", hx.Hex(signed), hx.Hex(ap.extra), ap.grow)
+		}
 	}
 }
 
@@ -465,6 +478,29 @@ func Handle(f []string) (res string) {
 			out = append(out, res)
 		}
 		return "ok " + strings.Join(out, " ")
+	case "append":
+		img := hx.MustUnHex(f[1])
+		extra := hx.MustUnHex(f[2])
+		grow := uint32(hx.Atoi(f[3]))
+		d, err := authenticode.DigestPE(bytes.NewReader(img), crypto.SHA256, false)
+		if err != nil {
+			return "err unsigned-or-bad"
+		}
+		g := append([]byte{}, img...)
+		// the certificate table size lives 4 bytes into the data-directory entry; find it the way a tamperer would
+		peStart := int(binary.LittleEndian.Uint32(g[0x3c:]))
+		ddOff := peStart + 24 + 128
+		if binary.LittleEndian.Uint16(g[peStart+24:]) == 0x20b {
+			ddOff = peStart + 24 + 144
+		}
+		_ = d
+		sz := binary.LittleEndian.Uint32(g[ddOff+4:])
+		binary.LittleEndian.PutUint32(g[ddOff+4:], sz+grow)
+		g = append(g, extra...)
+		if _, err := authenticode.VerifyPE(bytes.NewReader(g), false); err != nil {
+			return "ok fail"
+		}
+		return "ok pass"
 	case "locate":
 		img := hx.MustUnHex(f[1])
 		sigs, err := authenticode.VerifyPE(bytes.NewReader(img), true)
